@@ -515,7 +515,18 @@ void write_main_loop(const MtzToCif& m2c, const SweepInfo& sweep_info,
 # pragma GCC diagnostic push
 # pragma GCC diagnostic ignored "-Wformat-nonliteral"
 #endif
-          ptr += snprintf_z(ptr, 32, tr.format.c_str(), v);
+          int len = snprintf_z(ptr, 32, tr.format.c_str(), v);
+          if (len < 32) {
+            ptr += len;
+          } else {
+            // The number doesn't fit into the 32-byte slot (e.g. %.3f of 1e30).
+            // snprintf_z returns the untruncated length; write the number
+            // separately (the longest one, %.99f of FLT_MAX, has 140 characters).
+            os.write(buf, ptr - buf);
+            len = snprintf_z(buf, 256, tr.format.c_str(), v);
+            os.write(buf, std::min(len, 255));
+            ptr = buf;
+          }
 #if defined(__GNUC__)
 # pragma GCC diagnostic pop
 #endif
